@@ -1,5 +1,5 @@
 (* Dispatch.v — one entry point for the OCaml driver: property number -> functions. *)
-From Molt Require Import Model.Base Model.Tokenizer Check.C05 Check.C02 Check.C01 Check.C03 Check.C09 Check.C11 Check.C17 Check.C08 Check.C16.
+From Molt Require Import Model.Base Model.Tokenizer Check.C05 Check.C02 Check.C01 Check.C03 Check.C09 Check.C11 Check.C17 Check.C08 Check.C16 Check.C15 Check.C18 Check.C19.
 
 Record prop_fns := {
   pf_model_obs : term -> term;
@@ -23,8 +23,14 @@ Definition dispatch (p : N) : prop_fns :=
               pf_known := c02_known; pf_nontrivial := c02_nontrivial |}
   | 8%N => {| pf_model_obs := c08_model_obs; pf_spec_ok := c08_spec_ok;
               pf_known := c08_known; pf_nontrivial := c08_nontrivial |}
+  | 15%N => {| pf_model_obs := c15_model_obs; pf_spec_ok := c15_spec_ok;
+               pf_known := c15_known; pf_nontrivial := c15_nontrivial |}
   | 16%N => {| pf_model_obs := c16_model_obs; pf_spec_ok := c16_spec_ok;
                pf_known := c16_known; pf_nontrivial := c16_nontrivial |}
+  | 18%N => {| pf_model_obs := c18_model_obs; pf_spec_ok := c18_spec_ok;
+               pf_known := c18_known; pf_nontrivial := c18_nontrivial |}
+  | 19%N => {| pf_model_obs := c19_model_obs; pf_spec_ok := c19_spec_ok;
+               pf_known := c19_known; pf_nontrivial := c19_nontrivial |}
   | 9%N => {| pf_model_obs := c09_model_obs; pf_spec_ok := c09_spec_ok;
               pf_known := c09_known; pf_nontrivial := c09_nontrivial |}
   | 11%N => {| pf_model_obs := c11_model_obs; pf_spec_ok := c11_spec_ok;
